@@ -10,6 +10,7 @@ mod c09;
 mod c10;
 mod c12;
 mod c13;
+mod c14;
 mod c16;
 mod c17;
 mod eng;
@@ -81,6 +82,7 @@ fn main() {
         "C10" => c10::run(tier),
         "C12" => c12::run(tier),
         "C13" => c13::run(tier),
+        "C14" => c14::run(tier),
         "C16" => c16::run(tier),
         "C17" => c17::run(tier),
         x => {
